@@ -478,6 +478,8 @@ func ContraMap[T, U any](instance fp.Eq[T], fn func(U) T) fp.Eq[U] {
 func rejectedPackage() *pkgSpec {
 	p := &pkgSpec{Name: "rejected/array-field"}
 	p.addTyped("rejected", "array-field", typeSpec{name: "A1", decl: "type A1 struct {\n\ta [2]int\n}", tcs: only(Eq, Monoid)}, allTC(), nil)
+	// gombok prints "can't derive not named type" and emits nothing for this directive
+	p.addTyped("rejected", "unnamed-target-type", typeSpec{name: "NotNamed", derive: "[]int", tcs: only(Eq)}, allTC(), nil)
 	p.addTyped("rejected", "neighbour-of-rejected", typeSpec{name: "A2", decl: "type A2 struct {\n\ta int\n\tb string\n}", tcs: only(Eq, Ord)}, allTC(), nil)
 	return p
 }
